@@ -193,6 +193,26 @@ def make_probes(rng, sheets, cells, with_names):
                   '', {'blank_range_member_arith'})
             place(home, ('call', 'ISBLANK', [m]), 'empty-member-isblank',
                   '', {'blank_range_member_arith'})
+    # 6b. a range whose members are formula cells of every result kind
+    home = rng.choice(sheets)
+    r0 = 40
+    member_formulas = [
+        ('call', 'COUNTA', [('rng', None, 1, 1, 3, 2, (False,) * 4)]),
+        ('call', 'ISBLANK', [('ref', None, 8, 77, False, False)]),
+        ('call', 'IF', [('lit', True, 'TRUE'), ('lit', 2, '2'),
+                        ('lit', 3, '3')]),
+        ('bin', '+', ('ref', None, 1, 1, False, False), ('lit', 1, '1')),
+        ('call', 'SUM', [('rng', None, 1, 1, 2, 2, (False,) * 4)]),
+        ('call', 'CONCAT', [('lit', 'x', '"x"'), ('lit', 'y', '"y"')]),
+    ]
+    rng.shuffle(member_formulas)
+    for i, m in enumerate(member_formulas[:rng.randint(2, 6)]):
+        cells[(home, 10, r0 + i)] = ('f', m)          # column J
+    rg = ('rng', None, 10, r0, 10, r0 + 6, (False,) * 4)
+    place(home, ('call', 'COUNTA', [rg]), 'rect-of-formulas', 'COUNTA', (),
+          (1, 7))
+    place(home, ('call', 'SUM', [rg]), 'rect-of-formulas', 'SUM',
+          {'bool_in_range'}, (1, 7))
     # 7. sparse: more than 100 consecutive blanks inside a row / a column
     home = rng.choice(sheets)
     gap = rng.randint(101, 300)
